@@ -25,6 +25,11 @@ RULE = (
 RULE += (
     ' Added after seeded round 9: a PID column stored under another name (packedpid_A, halo_pid) and named explicitly, default and explicit load lists; 8 files of up to 700000 records read by 8 threads at the same time.'
 )
+RULE += (
+    ' Added after seeded round 11: read_asdf calls that are rejected (non-integer / non-numeric ppd override with a drawn PID request, bad dtype, unknown or foreign column name, '
+    'header lacking BoxSize / ppd / VelZSpace_to_kms / subsample fractions, absent colname / header key / data key, two raw columns, missing or non-ASDF file), each followed in the same '
+    'process by valid default and explicit reads of pid, packedpid, rvint and pack9 files, and all of them in a row followed by every valid read; the later tables against the independent decoder and the same read made before any rejection.'
+)
 ASSUMPTIONS = [
     "loadable columns: rvint/pack9 -> pos, vel; packedpid/pid -> pid, lagr_pos, tagged, density, lagr_idx, aux (as documented)",
     'tolerances as in C04 (1 ulp) and C15 (float64 1e-12 BoxSize, float32 8 ulp BoxSize)',
@@ -169,6 +174,191 @@ def check_table(run, t, ftype, data, hdr, load, dtype, desc):
         if t.meta.get(k) != v:
             return run.violation('read-asdf-meta', dict(key=k, got=repr(t.meta.get(k)), **desc))
     return False
+
+
+class _Renamed:
+    """The run, with every violation filed under one mechanism name (the original key is kept in the witness)."""
+
+    def __init__(self, run, mech, extra):
+        self._run, self._mech, self._extra = run, mech, extra
+
+    def __getattr__(self, name):
+        return getattr(self._run, name)
+
+    def violation(self, key, witness):
+        return self._run.violation(self._mech, dict(failed_check=key, **self._extra, **witness))
+
+
+def after_rejected_calls(run, RA, d):
+    """A read_asdf call that is rejected (raises) followed, in the same process, by valid reads: the later table has exactly the
+    requested / default columns, the values of the independent decoder and the header as meta, and is the table the same call
+    returned before anything was rejected.  The verdict comes from the later valid call only; a candidate that is not rejected
+    is counted, not reported."""
+    import contextlib
+    import io
+
+    MECH = 'read-asdf-after-rejected-call'
+    rng = run.rng(1)
+    d2 = os.path.join(d, 'after_rejected')
+    os.makedirs(d2, exist_ok=True)
+    files = {}
+    k = 2000
+    for ftype in ('rvint', 'pack9', 'packedpid', 'pid'):
+        for j in range(2):
+            k += 1
+            N = int(rng.integers(30, 400))
+            hkind = ['snapshot', 'lightcone'][(k + j) % 2]
+            comp = [None, 'zlib', 'blsc'][k % 3]
+            fn, data, hdr = make_file(rng, d2, ftype, N, hkind, comp, k)
+            files.setdefault(ftype, []).append((fn, data, hdr, dict(file_type=ftype, N=N, header=hkind, compression=comp)))
+
+    def quiet(fn, **kw):
+        with warnings.catch_warnings(), contextlib.redirect_stdout(io.StringIO()):
+            warnings.simplefilter('ignore')
+            return RA.read_asdf(fn, verbose=False, **kw)
+
+    # the valid calls
+    valid = []
+    for ftype, lst in files.items():
+        for j, (fn, data, hdr, fdesc) in enumerate(lst):
+            if ftype in ('rvint', 'pack9'):
+                loads = [None, ['pos'], ['vel'], ['vel', 'pos'][:: 1 if j else -1]]
+                default = ['pos', 'vel']
+            else:
+                sub = [c for c in PIDCOLS if rng.random() < 0.4] or ['lagr_idx']
+                loads = [None, ['pid'], ['tagged'], ['aux'], sub, list(PIDCOLS)]
+                default = ['pid']
+            for i, load in enumerate(loads):
+                dtype = [np.float32, np.float64][(i + j) % 2]
+                valid.append(dict(fn=fn, ftype=ftype, data=data, hdr=hdr, load=load, eff=load if load is not None else default, dtype=dtype,
+                                  desc=dict(load=load, dtype=np.dtype(dtype).str, **fdesc)))
+
+    def do_valid(v, rej):
+        """one valid read, judged against the independent decoder and against its own earlier result; rej = what was rejected before it"""
+        extra = dict(after_rejected_call=rej) if rej else dict(after_rejected_call=None, phase='before any rejected call')
+        r2 = _Renamed(run, MECH, extra)
+        run.ev()
+        run.progress(dict(v['desc'], **extra))
+        core.poison_prime()
+        try:
+            t = quiet(v['fn'], load=v['load'], dtype=v['dtype'])
+        except Exception as e:
+            r2.violation('valid-read-raises-' + type(e).__name__, dict(error=str(e)[:200], **v['desc']))
+            return
+        if check_table(r2, t, v['ftype'], v['data'], v['hdr'], v['eff'], v['dtype'], v['desc']):
+            return
+        snap = dict(cols=list(t.colnames), vals={c: np.array(t[c]) for c in t.colnames}, meta=dict(t.meta))
+        if 'snap' not in v:
+            v['snap'] = snap
+            return
+        s0 = v['snap']
+        run.count('valid_reads_compared_with_same_read_before_rejections')
+        if s0['cols'] != snap['cols'] or s0['meta'] != snap['meta']:
+            r2.violation('differs-from-same-call-before-the-rejected-call', dict(got_columns=snap['cols'], before=s0['cols'], **v['desc']))
+            return
+        for c in s0['cols']:
+            if not np.array_equal(s0['vals'][c], snap['vals'][c], equal_nan=(s0['vals'][c].dtype.kind == 'f')):
+                r2.violation('differs-from-same-call-before-the-rejected-call', dict(column=c, **v['desc']))
+                return
+
+    for v in valid:
+        do_valid(v, None)
+
+    # files that are rejected part-way through a read
+    def variant(ftype, name, mutate_hdr=None, extra_cols=None):
+        fn0, data, hdr, _ = files[ftype][0]
+        h = dict(hdr)
+        if mutate_hdr:
+            mutate_hdr(h)
+        cols = {ftype: data}
+        cols.update(extra_cols or {})
+        fn = os.path.join(d2, f'{name}_{ftype}.asdf')
+        write_asdf(fn, dict(header=h, data=cols), None)
+        return fn
+
+    def pidsub(minlen=2):
+        c = [x for x in PIDCOLS if rng.random() < 0.5]
+        while len(c) < minlen:
+            c = sorted(set(c) | {PIDCOLS[int(rng.integers(0, 5))]}, key=PIDCOLS.index)
+        return tuple(c)
+
+    rejected = []  # (label, thunk)
+    for ftype in ('packedpid', 'pid'):
+        f0, f1 = files[ftype][0][0], files[ftype][1][0]
+        # the documented example of the input class first, then drawn requests
+        for fn_, load, ppd in ((f0, ('pid', 'lagr_pos', 'density'), 16.5), (f1, pidsub(), float(rng.integers(2, 7000)) + 0.5), (f0, tuple(PIDCOLS), -3.25),
+                               (f1, pidsub(), 'sixteen'), (f0, pidsub(), None)):
+            rejected.append((dict(file_type=ftype, load=load, ppd=ppd, why='ppd override is not an integer'),
+                             lambda fn_=fn_, load=load, ppd=ppd: quiet(fn_, load=load, ppd=ppd)))
+        ld = pidsub()
+        rejected.append((dict(file_type=ftype, load=ld, dtype='not-a-dtype', why='bad dtype'), lambda f=f1, ld=ld: quiet(f, load=ld, dtype='not-a-dtype')))
+        ld = pidsub()
+        rejected.append((dict(file_type=ftype, load=ld, dtype='complex64', why='bad dtype'), lambda f=f0, ld=ld: quiet(f, load=ld, dtype=np.complex64)))
+        ld = pidsub(1) + ('spin',)
+        rejected.append((dict(file_type=ftype, load=ld, why='unknown column name'), lambda f=f0, ld=ld: quiet(f, load=ld)))
+        ld = ('pos',) + pidsub(1)
+        rejected.append((dict(file_type=ftype, load=ld, why='column of another file type'), lambda f=f1, ld=ld: quiet(f, load=ld)))
+        ld = pidsub()
+        fnv = variant(ftype, 'nobox', lambda h: h.pop('BoxSize'))
+        rejected.append((dict(file_type=ftype, load=ld, why='header without BoxSize'), lambda f=fnv, ld=ld: quiet(f, load=ld)))
+        ld = pidsub()
+        fnv = variant(ftype, 'noppd', lambda h: h.pop('ppd'))
+        rejected.append((dict(file_type=ftype, load=ld, why='header without ppd'), lambda f=fnv, ld=ld: quiet(f, load=ld)))
+        ld = pidsub()
+        rejected.append((dict(file_type=ftype, load=ld, colname='rvint', why='named raw column absent'), lambda f=f0, ld=ld: quiet(f, load=ld, colname='rvint')))
+        ld = pidsub()
+        rejected.append((dict(file_type=ftype, load=ld, header_key='hdr', why='header key absent'), lambda f=f1, ld=ld: quiet(f, load=ld, header_key='hdr')))
+        ld = pidsub()
+        fnv = variant(ftype, 'twocols', None, dict(rvint=files['rvint'][0][1]))
+        rejected.append((dict(file_type=ftype + '+rvint', load=ld, why='two known raw columns'), lambda f=fnv, ld=ld: quiet(f, load=ld)))
+    for ftype in ('rvint', 'pack9'):
+        f0, f1 = files[ftype][0][0], files[ftype][1][0]
+        for ld, kw, why in ((('pos', 'vel'), dict(dtype='not-a-dtype'), 'bad dtype'), (('vel',), dict(dtype=np.complex64), 'bad dtype'), (('pos',), dict(dtype=np.int16), 'bad dtype'),
+                            (('pos', 'spin'), {}, 'unknown column name'), (('vel', 'pid', 'density'), {}, 'column of another file type'),
+                            (('pos', 'vel'), dict(colname='packedpid'), 'named raw column absent'), (('vel',), dict(data_key='particles'), 'data key absent')):
+            rejected.append((dict(file_type=ftype, load=ld, why=why, **{a: str(b) for a, b in kw.items()}), lambda f=[f0, f1][len(rejected) % 2], ld=ld, kw=kw: quiet(f, load=ld, **kw)))
+        fnv = variant(ftype, 'nobox', lambda h: h.pop('BoxSize'))
+        rejected.append((dict(file_type=ftype, load=('pos', 'vel'), why='header without BoxSize'), lambda f=fnv: quiet(f, load=('pos', 'vel'))))
+    fnv = variant('pack9', 'novelz', lambda h: h.pop('VelZSpace_to_kms'))
+    rejected.append((dict(file_type='pack9', load=None, why='header without VelZSpace_to_kms'), lambda f=fnv: quiet(f)))
+    lcf = [x for x in files['pid'] + files['rvint'] if x[3]['header'] == 'lightcone'][0]
+    fnv = variant(lcf[3]['file_type'], 'nosub', lambda h: (h.update(OutputType='LightCone', SimSet='AbacusSummit'), h.pop('ParticleSubsampleB', None)))
+    rejected.append((dict(file_type=lcf[3]['file_type'], load=None, why='light-cone header without ParticleSubsampleB'), lambda f=fnv: quiet(f)))
+    rejected.append((dict(file='missing', load=('pid', 'density'), why='no such file'), lambda: quiet(os.path.join(d2, 'no_such_file.asdf'), load=('pid', 'density'))))
+    notasdf = os.path.join(d2, 'garbage.asdf')
+    with open(notasdf, 'wb') as fh:
+        fh.write(bytes(rng.integers(0, 256, 500, dtype=np.uint8)))
+    rejected.append((dict(file='garbage', load=None, why='not an ASDF file'), lambda: quiet(notasdf)))
+
+    def do_rejected(label, thunk):
+        run.progress(dict(rejected_call=label))
+        try:
+            thunk()
+        except Exception as e:
+            run.count('rejected_calls_before_valid_ones')
+            return dict(label, error=f'{type(e).__name__}: {e}'[:120])
+        run.count('rejection_candidates_that_returned_a_table')  # not stated by the property either way: no verdict
+        return None
+
+    # every rejected call followed directly by each of a rotating choice of valid reads (every file type, default and explicit requests)
+    by_type = {ft: [v for v in valid if v['ftype'] == ft] for ft in files}
+    nfollow = 1 if run.quick else 6
+    for i, (label, thunk) in enumerate(rejected):
+        follow = []
+        for ft, vs in by_type.items():
+            follow.append([v for v in vs if v['load'] is None][i % 2])  # the documented defaults
+            follow += [vs[int(x)] for x in rng.choice(len(vs), min(nfollow, len(vs)), replace=False)]
+        for v in follow:
+            rej = do_rejected(label, thunk)
+            if rej is None:
+                break
+            run.nt(('after-rejected', label.get('why'), label.get('file_type'), v['ftype'], repr(v['load'])))
+            do_valid(v, rej)
+    # all the rejected calls in a row, then every valid read
+    nrej = sum(do_rejected(label, thunk) is not None for label, thunk in rejected)
+    for v in valid:
+        run.nt(('after-all-rejected', v['ftype'], repr(v['load']), v['desc']['dtype']))
+        do_valid(v, dict(rejected_calls_in_a_row=nrej))
 
 
 def subsets(cols):
@@ -423,6 +613,7 @@ def check(run):
                     run.violation('read-asdf-named-column-raises-' + type(e).__name__, dict(colname=cn, load=load, error=f'{type(e).__name__}: {e}'[:200]))
                     continue
                 check_table(run, t, 'packedpid', pp, hdr, load or ['pid'], np.float32, dict(file='no known raw column', colname=cn, load=load))
+        after_rejected_calls(run, RA, d)
     finally:
         shutil.rmtree(d, ignore_errors=True)
 
